@@ -227,7 +227,7 @@ static fibre_t fibA, fibB;
 static int fb_senders, fb_per;
 static uint32_t fb_next[16];
 static int fb_got;
-static atomic_uint workA, workB; /* relaxed only: no happens-before from the harness */
+static unsigned workA, workB; /* accessed with relaxed __atomic builtins only: no happens-before from the harness */
 static uint32_t accA[16], accB[16]; /* per sender thread: highest accepted value (thread-local until join) */
 static uint32_t seenA, seenB;
 static uint64_t fb_refused[16];
@@ -320,8 +320,8 @@ static void fibre_round(int senders, int per)
 	memset(accA, 0, sizeof(accA));
 	memset(accB, 0, sizeof(accB));
 	seenA = seenB = 0;
-	atomic_store(&workA, 0);
-	atomic_store(&workB, 0);
+	__atomic_store_n(&workA, 0, __ATOMIC_RELAXED);
+	__atomic_store_n(&workB, 0, __ATOMIC_RELAXED);
 	char key[64];
 	snprintf(key, sizeof(key), "fibre:senders=%d", senders);
 	vh_case_key(key);
@@ -443,8 +443,8 @@ static void signal_round(int per)
 	memset(accA, 0, sizeof(accA));
 	memset(accB, 0, sizeof(accB));
 	seenA = seenB = 0;
-	atomic_store(&workA, 0);
-	atomic_store(&workB, 0);
+	__atomic_store_n(&workA, 0, __ATOMIC_RELAXED);
+	__atomic_store_n(&workB, 0, __ATOMIC_RELAXED);
 	vh_case_key("signals");
 	vh_case_budget(600);
 	vh_case_desc("two nested interval-timer signals posting %d events each against the main-context scheduler", per);
